@@ -354,6 +354,10 @@ func (S *Specs) parseFile(path string) error {
 				case "candidate":
 					c.Ord = len(cur.LoopCand) + 1
 					cur.LoopCand = append(cur.LoopCand, c)
+				case "assume":
+					// assumed at the loop head without proof; always listed among the assumptions of the evidence
+					c.Ord = len(cur.LoopInv) + 1
+					cur.LoopInv = append(cur.LoopInv, c)
 				default:
 					return fail(fmt.Errorf("unknown loop clause %q", kw2))
 				}
